@@ -112,6 +112,21 @@ def c09_stages(tier):
     return st
 
 
+def history_nontrivial(s):
+    return {k: v for k, v in s.items() if k not in ('sc', 'exp')} if len(s.get('lhs', [])) >= 2 or s.get('schema') else None
+
+
+def HS(name, cfg, **kw):
+    return Stage(name, 'Trace_AffTree', mc=('MC_AffTree', cfg), nontrivial=history_nontrivial, shard_events=300, mc_workers=12, **kw)
+
+
+def prune_stages(tier):
+    st = [HS('prune-q', 'MC_AffTree_prune_q.cfg'), HS('prune-2d', 'MC_AffTree_prune_2d.cfg'), HS('pruneg-q', 'MC_AffTree_pruneg_q.cfg'), HS('prunea-q', 'MC_AffTree_prunea_q.cfg')]
+    if tier == 'thorough':
+        st += [HS('prune-t', 'MC_AffTree_prune_t.cfg'), HS('pruneg-t', 'MC_AffTree_pruneg_t.cfg')]
+    return st
+
+
 def c07_stages(tier):
     st = [AT('arith-q', 'MC_AffTree_arith_q.cfg'), AT('arithaff-q', 'MC_AffTree_arithaff_q.cfg')]
     if tier == 'thorough':
@@ -157,6 +172,19 @@ CHECKS = {
         'design_ref': 'DESIGN.md 6/C09',
         'rule': 'one script per (tree, layout, set of skip positions); non-trivial = tree with at least one decision',
         'assumptions': ['E-universe integer data; q=1', 'grid: half-integers in [-2,2]^2 (contains every breakpoint of the alphabet)'],
+    },
+    'C03': {
+        'stages': prune_stages,
+        'level_text': 'infeasible_elimination (DFS with cached states, witness inheritance, LP oracle, deferred removal, forwarding) and pruned '
+                      'composition are modelled step for step (spec/AffTreeL1.tla) and model-checked: the function is unchanged up to regions with '
+                      'empty interior, caches are sound, elimination is effective and idempotent on total trees. Every scenario (single '
+                      'elimination, pruned composition, eliminate/compose/eliminate and eliminate/add pipelines that create cached states) is '
+                      'replayed on the real crate; TLC decides on the recorded pre/post trees by FM that the function is unchanged, that every '
+                      'removed node lies on a path without interior or is a decision all of whose other branches are such paths.',
+        'level_note': AFFTREE_NOTE + ' Thin (zero-width) regions may be answered either way by the LP solver; differences are tolerated only there.',
+        'design_ref': 'DESIGN.md 6/C03',
+        'rule': 'one history script per (tree, pipeline[, right operand]); non-trivial = left tree has a decision',
+        'assumptions': ['E-universe integer data; q=1', 'predicate alphabets contain strictly feasible, closed-empty, zero-width and zero-row cases'],
     },
     'C07': {
         'stages': c07_stages,
